@@ -45,8 +45,18 @@ func (p *PointProj) scalarMulGLV(p1 *PointProj, scalar *big.Int) *PointProj {
 	table[0].Set(p1)
 	table[3].phi(p1)
 
+	// the endomorphism is not defined at the identity
+	if p1.IsZero() {
+		p.setInfinity()
+		return p
+	}
+
 	// split the scalar, modifies +-p1, phi(p1) accordingly
-	k := ecc.SplitScalar(scalar, &curveParams.glvBasis)
+	// (reduced modulo the group order first: the halves are stored in fr.Elements below,
+	// whose modulus is not the order of this group)
+	var s big.Int
+	s.Mod(scalar, &curveParams.Order)
+	k := ecc.SplitScalar(&s, &curveParams.glvBasis)
 
 	if k[0].Sign() == -1 {
 		k[0].Neg(&k[0])
@@ -142,8 +152,18 @@ func (p *PointExtended) scalarMulGLV(p1 *PointExtended, scalar *big.Int) *PointE
 	table[0].Set(p1)
 	table[3].phi(p1)
 
+	// the endomorphism is not defined at the identity
+	if p1.IsZero() {
+		p.setInfinity()
+		return p
+	}
+
 	// split the scalar, modifies +-p1, phi(p1) accordingly
-	k := ecc.SplitScalar(scalar, &curveParams.glvBasis)
+	// (reduced modulo the group order first: the halves are stored in fr.Elements below,
+	// whose modulus is not the order of this group)
+	var s big.Int
+	s.Mod(scalar, &curveParams.Order)
+	k := ecc.SplitScalar(&s, &curveParams.glvBasis)
 
 	if k[0].Sign() == -1 {
 		k[0].Neg(&k[0])
